@@ -159,6 +159,10 @@ func gatesAuth(s *Summary, c *gateCase) {
 			if hv != "<none>" {
 				req.Header.Set("Authorization", hv)
 			}
+			if posk%3 == 1 { // a script on a page asks (XMLHttpRequest): the gate answers it like any other client
+				req.Header.Set("X-Requested-With", "XMLHttpRequest")
+				req.Header.Set("Accept", "application/json")
+			}
 			w := httptest.NewRecorder()
 			r.ServeHTTP(w, req)
 			s.Compared++
